@@ -31,6 +31,8 @@ type e8row struct {
 	group   func(name string) int
 	pre     func(a *e8assign, names *e8names) bool // may be called with a partial assignment (use a.has)
 	lenEqOpaque bool
+	havoc   bool
+	opaquePkg map[*types.Package]bool
 	opaque  map[*types.Func]bool
 	spec    func(a *e8assign, names *e8names, out *e8out) string
 }
@@ -242,7 +244,7 @@ restart:
 		}()
 		// discovery
 		col := &e8collector{scalars: map[string]bool{}, bools: map[string]bool{}}
-		run(&e8interp{p: p, collect: col, lenEqOpaque: row.lenEqOpaque, opaque: row.opaque})
+		run(&e8interp{p: p, collect: col, lenEqOpaque: row.lenEqOpaque, opaque: row.opaque, havoc: row.havoc, opaquePkg: row.opaquePkg})
 		for _, a := range row.atoms {
 			col.scalars[a] = true
 		}
@@ -308,7 +310,7 @@ restart:
 				return
 			}
 			evaluated++
-			in := &e8interp{p: p, a: a, lenEqOpaque: row.lenEqOpaque, opaque: row.opaque}
+			in := &e8interp{p: p, a: a, lenEqOpaque: row.lenEqOpaque, opaque: row.opaque, havoc: row.havoc, opaquePkg: row.opaquePkg}
 			out := run(in)
 			if out != nil {
 				out.in = in
